@@ -4,7 +4,7 @@ From Coq Require Import List NArith ZArith Bool.
 Import ListNotations.
 From NV Require Import Rec.FreeVars Rec.FreeVarsProofs.
 From NV Require Import Rec.Lang Rec.Spec Rec.Mech Rec.SpecProofs Rec.MechInv Rec.MechMerge Rec.History
-  Rec.Refuted Rec.Bridge.
+  Rec.Refuted Rec.Bridge Rec.Nested Rec.NestedProofs.
 From NV Require Import Props.C07.
 
 Check (C07_collect_sound_complete : forall t x, In x (collect false t) <-> free x t).
@@ -81,7 +81,26 @@ Check (C07_depsunknown_equiv : forall h i,
   | None, None => True
   | _, _ => False
   end).
+Check (C07_inst_ok : forall c F st ro k,
+  faithful false c -> coherent false st ro ->
+  inst_rel st (inst c F st ro k) (sinst F (abs st ro) k)).
+Check (C07_nested_history_fields : forall c h i k F,
+  faithful false c -> lits_ok false h ->
+  let (st, slots) := irun c h in
+  match nth_error slots i, nth_error (srun h) i with
+  | Some (Rid r), Some (Some R) =>
+      ifield F st r k = sfield F R k /\
+      match inst c F st r k, sinst F R k with
+      | Some (st', ri), Some Ri => forall fuel p, ifield fuel st' ri p = sfield fuel Ri p
+      | None, None => True
+      | _, _ => False
+      end
+  | Some BadRef, Some None => True
+  | None, None => True
+  | _, _ => False
+  end).
 Check (C07_vars_free : forall t x, In x (vars t) <-> free x (emb t)).
+Check (C07_svars_free : forall s x, In x (svars s) <-> free x (emb_src s)).
 Check (C07_cfg_fixed_faithful : faithful false cfg_fixed).
 Check (C07_cfg_partA_faithful : faithful false cfg_partA).
 Check (C07_literal_deps_agree_stat : forall (l : literal) k d x,
